@@ -161,9 +161,11 @@ def r1_constants(run: Run, src, g):
                 continue            # formula branch: the output of the formula translator
             n_const += 1
             ok = all(k == 'lit' or (k == 'repr' and a == taint) for k, a in kinds)
-            shape = ''.join(a if k == 'lit' else '{' + k + '}' for k, a in kinds)
+            shape = ''.join(a if k == 'lit' else ('{repr(value)}' if (k == 'repr' and a == taint) else
+                                                  '{repr(<transformed value>)}' if k == 'repr' else '{' + k + '}') for k, a in kinds)
             run.check(ok, 'C07.R1', f'CellTranslator/constant-cell:{shape[:40]}', 'constant-not-repr',
-                      f'a constant cell is printed as `{shape}`: the stored value reaches the source without repr()',
+                      f'a constant cell is printed as `{shape}`: the stored value must reach the source as repr(value) -- nothing '
+                      f'else is both safe and exact',
                       fact=f'constant printed as {shape}', loc=loc_of(fi.module.path, fi.node))
     if n_const < 2:
         raise AnalysisError('C07.R1', 'the constant-cell branches of CellTranslator were not found (expected repr and blank)')
